@@ -7,7 +7,7 @@
          application having answered <calls> Value() calls before; inputs as in C12 (start r | prop .. | pv .. |
          pc .. | to k h r), words separated by '_' or ' '.
          Reply: one line per state machine call "<label> => <effects>", then
-                "= <height> <started 0/1> <calls> <n effects> <resume height if crashed at k>", then "end".
+                "= <height> <started 0/1> <calls> <n effects> <resume height if crashed at k> <good_run 0/1/-> <life_disc 0/1>", then "end".
          k >= 0: the process is killed after its first k effects; the log directory becomes crash_at k.
          k = -1: clean run to the end of the inputs, directory unchanged (what-if run).
      verdict <h0>         -> "<no_conflict> <resume> <flush+logged>" on (effects before the last crash, last life)
@@ -152,6 +152,7 @@ let () =
           List.map (fun s -> parse_input (List.filter (fun x -> x <> "")
                       (String.split_on_char ' ' (String.map (fun c -> if c = '_' then ' ' else c) s))))
             (String.split_on_char '/' ins_s) in
+        let dur_before = !durable in
         let (d, tr) = lifetime e (ni h) !durable (ni calls) ins in
         let effs = flat tr in
         let k = int_of_string k in
@@ -174,8 +175,12 @@ let () =
             durable := crash_at (nat_of_int k) effs !durable;
             pre_ref := pre; sn r
           end else "-" in
+        (* hypotheses of the theorems, evaluated on this life: plain run (only for a life on an empty log) and
+           the calling discipline *)
+        let plain = if dur_before = [] && int_of_string calls = 0 then b01 (good_run e (ni h) ins) else "-" in
+        let disc = b01 (life_disc e (ni h) dur_before (ni calls) ins) in
         print_endline ("= " ^ sn d.d_sm.s_h ^ " " ^ b01 d.d_sm.s_started ^ " " ^ sn d.d_calls ^ " " ^
-                       string_of_int (List.length effs) ^ " " ^ resume);
+                       string_of_int (List.length effs) ^ " " ^ resume ^ " " ^ plain ^ " " ^ disc);
         print_endline "end"; flush stdout
     | ["verdict"; h0] ->
         print_endline (show_verdict (verdict (ni h0) !pre_ref !post_ref)); flush stdout
